@@ -112,7 +112,7 @@ fn traces_case<const K: u8, const TWIN: bool>() {
     let x: u8 = kani::any();
     kani::assume(x <= 2);
     let props = Slots { s: [("evt_kind", kind_value::<K>())] };
-    let evt = Event::new(Path::new_raw("m"), Template::literal("t"), extent_of(x), &props);
+    let evt = Event::new(Path::new_raw("m"), Template::literal("t"), extent_of_sym_range(x), &props);
     let got = verif::traces_accepts(&evt);
     let want = is_span(K) && x == 2;
     if TWIN {
